@@ -27,22 +27,30 @@ Platforms(mem) == {mem[i].path[2] : i \in {j \in DOMAIN mem : Len(mem[j].path) =
 Determined(p) == p.ok /\ ~p.lone /\ TopIsObject(p.mem) /\ Unambiguous(p.mem)
 
 (* r = [ok, err, fields (record name -> bytes), has_notes, notes, downloads (sequence of      *)
-(* [platform, url, arch, format, has_sha, sha256])]                                            *)
-DownloadClauses(mem, d) ==
-    IF d.platform \notin Platforms(mem) THEN {"C38.field-mismatch/downloads.platform"} ELSE
+(* [platform, url, arch, format, has_sha, sha256])].  A mismatch that is exactly the           *)
+(* unit-by-unit (CESU-8) decoding of an escaped surrogate pair gets its own clause id.          *)
+Mis(name, mem, smem, path, reported) ==
+    IF ~HasStr(mem, path) \/ reported = StrAt(mem, path) THEN {}
+    ELSE IF HasStr(smem, path) /\ reported = StrAt(smem, path) THEN {"C38.surrogate-pair-split"}
+    ELSE {"C38.field-mismatch/" \o name}
+DownloadClauses(mem, smem, d) ==
+    IF d.platform \notin Platforms(mem)
+      THEN {IF d.platform \in Platforms(smem) THEN "C38.surrogate-pair-split" ELSE "C38.field-mismatch/downloads.platform"} ELSE
     LET at(k) == <<K_downloads, d.platform, k>> IN
-    (IF HasStr(mem, at(K_url)) /\ d.url # StrAt(mem, at(K_url)) THEN {"C38.field-mismatch/downloads.url"} ELSE {})
-    \cup (IF HasStr(mem, at(K_arch)) /\ d.arch # StrAt(mem, at(K_arch)) THEN {"C38.field-mismatch/downloads.arch"} ELSE {})
-    \cup (IF HasStr(mem, at(K_format)) /\ d.format # StrAt(mem, at(K_format)) THEN {"C38.field-mismatch/downloads.format"} ELSE {})
-    \cup (IF d.has_sha /\ ~(HasStr(mem, at(K_sha256)) /\ d.sha256 = StrAt(mem, at(K_sha256))) THEN {"C38.field-mismatch/downloads.sha256"} ELSE {})
+    Mis("downloads.url", mem, smem, at(K_url), d.url) \cup Mis("downloads.arch", mem, smem, at(K_arch), d.arch)
+    \cup Mis("downloads.format", mem, smem, at(K_format), d.format)
+    \cup (IF ~d.has_sha THEN {} ELSE IF ~HasStr(mem, at(K_sha256)) THEN {"C38.field-mismatch/downloads.sha256"}
+          ELSE Mis("downloads.sha256", mem, smem, at(K_sha256), d.sha256))
 ResultClauses(doc, r) ==
     IF ~r.ok THEN (IF r.err = "" THEN {"C38.failure-without-message"} ELSE {})
-    ELSE LET p == Parse(doc) IN
+    ELSE LET p == Parse(doc)
+             smem == ParseWith(doc, TRUE).mem
+         IN
          IF ~Determined(p) THEN {} ELSE
-         {"C38.field-mismatch/" \o Required[i].n : i \in {j \in 1..Len(Required) :
-               HasStr(p.mem, <<Required[j].k>>) /\ r.fields[Required[j].n] # StrAt(p.mem, <<Required[j].k>>)}}
-         \cup (IF r.has_notes /\ ~(HasStr(p.mem, <<K_notes_url>>) /\ r.notes = StrAt(p.mem, <<K_notes_url>>)) THEN {"C38.field-mismatch/notes_url"} ELSE {})
-         \cup UNION {DownloadClauses(p.mem, r.downloads[i]) : i \in DOMAIN r.downloads}
+         UNION {Mis(Required[i].n, p.mem, smem, <<Required[i].k>>, r.fields[Required[i].n]) : i \in 1..Len(Required)}
+         \cup (IF ~r.has_notes THEN {} ELSE IF ~HasStr(p.mem, <<K_notes_url>>) THEN {"C38.field-mismatch/notes_url"}
+               ELSE Mis("notes_url", p.mem, smem, <<K_notes_url>>, r.notes))
+         \cup UNION {DownloadClauses(p.mem, smem, r.downloads[i]) : i \in DOMAIN r.downloads}
 \* a driver process that died inside the call
 DiedClause(how) == "C38." \o (IF how \in {"stack-overflow", "sanitizer/stack-overflow"} THEN "crash/stack-overflow"
                               ELSE IF how = "hang" THEN "crash/hang"
